@@ -187,6 +187,18 @@ def worker_fn(ctx) -> FuncInfo:
             f = r.expand(n.args[0])
             if isinstance(f, ast.Call) and (r.callee_qname(f) or "").endswith("partial") and f.args:
                 f = f.args[0]
+            # a closure / lambda that forwards the file to a method of the codemod: that method is the worker
+            body = None
+            if isinstance(f, ast.Lambda):
+                body = [f.body]
+            elif isinstance(f, ast.Name):
+                nested = next((x for x in ast.walk(ap.node) if isinstance(x, ast.FunctionDef) and x is not ap.node and x.name == f.id), None)
+                if nested is not None:
+                    body = [x.value for x in ast.walk(nested) if isinstance(x, ast.Return) and x.value is not None]
+            if body:
+                calls = [c for b in body for c in ast.walk(b) if isinstance(c, ast.Call) and isinstance(c.func, ast.Attribute) and isinstance(c.func.value, ast.Name) and c.func.value.id == "self"]
+                if len(calls) == 1:
+                    f = calls[0].func
             if isinstance(f, ast.Attribute) and isinstance(f.value, ast.Name) and f.value.id == "self":
                 m = ctx.prog.lookup_method(ap.cls.qname, f.attr)
                 if m is not None:
